@@ -1,9 +1,10 @@
 #!/usr/bin/env python3
-"""verify_seed.py <seed-worktree-or-dir-with-SEED> <demo test filter>
+"""verify_seed.py <dir-with-SEED> <demo test filter>     (env DEMOCMD overrides the demo command)
 Independent confirmation of a seeded change in a fresh scratch worktree of /repo HEAD:
- 1. demo only         -> demo tests must PASS
- 2. demo + patch      -> full suite (original 65) must PASS, demo tests must FAIL
-Prints a JSON summary.  Scratch worktree and its target dir are removed afterwards."""
+ 1. demo only   -> demo command must PASS
+ 2. patch only  -> the repository's own suite must PASS (no failed test, exit 0)
+ 3. demo+patch  -> demo command must FAIL (failing tests or a compile error)
+Prints a JSON summary.  The scratch worktree and its target dir are removed afterwards."""
 import json, os, re, shutil, subprocess, sys, tempfile
 
 src = sys.argv[1].rstrip("/")
@@ -14,6 +15,7 @@ os.rmdir(wt)
 subprocess.check_call(["git", "-C", "/repo", "worktree", "add", "-q", "--detach", wt, "HEAD"])
 env = dict(os.environ, CARGO_TARGET_DIR=os.path.join(wt, "target"), CARGO_NET_OFFLINE="true")
 res = {}
+democmd = os.environ.get("DEMOCMD") or ("cargo test --offline -p peginator_test %s" % flt)
 def run(cmd):
     p = subprocess.run(cmd, cwd=wt, env=env, shell=True, stdout=subprocess.PIPE, stderr=subprocess.STDOUT, text=True)
     return p.returncode, p.stdout
@@ -23,20 +25,34 @@ def counts(out):
     return ok, bad
 try:
     demo_diff = os.path.join(seed, "demo", "demo.diff")
-    if os.path.exists(demo_diff):
-        rc, out = run("git apply %s" % demo_diff)
-        res["demo_applies"] = rc == 0
+    patch = os.path.join(seed, "patch.diff")
+    # 1. demo only
+    rc, out = run("git apply %s" % demo_diff)
+    res["demo_applies"] = rc == 0
     run("rm -f test/src/*/grammar.rs")
-    rc, out = run("cargo test --offline -p peginator_test %s 2>&1" % flt)
-    res["demo_without_patch"] = counts(out) + (rc,)
-    rc, out = run("git apply %s" % os.path.join(seed, "patch.diff"))
+    rc, out = run(democmd + " 2>&1")
+    ok, bad = counts(out)
+    res["demo_without_patch"] = {"passed": ok, "failed": bad, "rc": rc}
+    # 2. patch only
+    run("git apply -R %s" % demo_diff)
+    run("git status --porcelain | grep '^??' | awk '{print $2}' | grep -v '^target' | xargs -r rm -rf")
+    rc, out = run("git apply %s" % patch)
     res["patch_applies"] = rc == 0
     run("rm -f test/src/*/grammar.rs")
     rc, out = run("cargo test --offline --workspace --no-fail-fast 2>&1")
-    res["suite_with_patch_all"] = counts(out) + (rc,)
+    ok, bad = counts(out)
+    res["suite_with_patch"] = {"passed": ok, "failed": bad, "rc": rc}
+    # 3. demo + patch
+    rc0, out0 = run("git apply %s" % demo_diff)
+    run("rm -f test/src/*/grammar.rs")
+    rc, out = run(democmd + " 2>&1")
+    ok, bad = counts(out)
     failed = sorted(set(re.findall(r"^test (\S+) \.\.\. FAILED", out, re.M)))
-    res["failed_tests_with_patch"] = failed
-    res["only_demo_fails"] = bool(failed) and all(flt in f for f in failed)
+    res["demo_with_patch"] = {"passed": ok, "failed": bad, "rc": rc, "failed_tests": failed[:10], "compile_error": bool(re.search(r"^error(\[E\d+\])?:", out, re.M)) and not failed}
+    res["confirmed"] = bool(res["demo_applies"] and res["patch_applies"]
+                            and res["demo_without_patch"]["rc"] == 0 and res["demo_without_patch"]["passed"] > 0
+                            and res["suite_with_patch"]["rc"] == 0 and res["suite_with_patch"]["failed"] == 0 and res["suite_with_patch"]["passed"] >= 65
+                            and res["demo_with_patch"]["rc"] != 0)
 finally:
     subprocess.call(["git", "-C", "/repo", "worktree", "remove", "--force", wt])
     shutil.rmtree(wt, ignore_errors=True)
